@@ -21,7 +21,8 @@ PROPS = {
         units=STACK_API,
         explanation='every public method of PushStack<T> (generic T) is verified against the Seq<T> operation it implements; '
                     'operation histories of any length follow by composition of the per-method contracts',
-        not_decided=['PushStack::to_string (printing lists the items top first): iter().rev().enumerate() and format! are outside Verus'],
+        not_decided=['the text a single item prints as (PushPrint::to_pstring: uninterpreted pstr_of) and what trim() removes; PushStack::to_string itself is under contract: '
+                     'the text before trimming is, for each item from the TOP down, a blank and the item\'s printed form (R9a, R11b, R19)'],
         assumptions=['positions passed to replace() are < usize::MAX (the quantifier\'s range is [0, len+2])',
                      'swap(i, j) is the raw slice swap and requires in-range indices (not part of the statement\'s list)'],
     ),
@@ -92,7 +93,8 @@ PROPS = {
         units=['path:buffer::PushBuffer::*', 'path:buffer::PushBufferIterator::*', 'nameglob:INPUT.*', 'nameglob:OUTPUT.*'],
         explanation='PushBuffer<T>: representation invariant wf() and abstract view live() (oldest first); push/push_force/pop/flush/get/get_mut/copy/peek/iter/next verified against the bounded-sequence operations for both kinds; '
                     'INPUT.*/OUTPUT.* rows on top of it',
-        not_decided=['printing (to_string uses format!/trim): outside Verus; the slot-order defect of PushBuffer::to_string was repaired and confirmed natively, not by a contract',
+        not_decided=['the text a single item prints as (Display: uninterpreted str_of) and what trim() removes; PushBuffer::to_string itself is under contract: for a well-formed buffer it never indexes outside the container and '
+                     'the text before trimming is, for each LIVE item from the newest to the oldest, a blank and its Display form (R19) -- so the slot-order defect repaired earlier is now excluded by a contract',
                      'size_hint() of the iterator (not part of the statement)'],
         assumptions=['capacity in 1..2^30 (index arithmetic goes through i32)'],
     ),
